@@ -28,7 +28,7 @@ class Worktree:
 
     def __enter__(self):
         sh("git worktree remove --force %s" % self.path, REPO)
-        rc, out = sh("git worktree add -q --detach %s HEAD" % self.path, REPO)
+        rc, out = sh("git worktree add -q --detach %s %s" % (self.path, os.environ.get("SEED_BASE", "HEAD")), REPO)
         if rc != 0:
             raise SystemExit("cannot create worktree: " + out)
         return self.path
@@ -112,7 +112,7 @@ def cmd_confirm(args):
         out = confirm(d, wt)
     meta = json.load(open(os.path.join(d, "meta.json")))
     meta["confirmation"] = out
-    meta["what_was_run"] = ["scratch worktree of /repo HEAD", meta.get("demo_run", ""), "go build ./... && go test -vet=off -count=1 ./..."]
+    meta["what_was_run"] = ["scratch worktree of /repo " + os.environ.get("SEED_BASE", "HEAD"), meta.get("demo_run", ""), "go build ./... && go test -vet=off -count=1 ./..."]
     json.dump(meta, open(os.path.join(d, "meta.json"), "w"), indent=1)
     print(os.path.basename(d), json.dumps(out))
     return out
